@@ -89,10 +89,32 @@ Definition check_predict (c : case) : bool :=
   list_eqb pat_eqb (pattern_of out) pat
   && forallb (fun s => cell_close so (fst s) && cell_close sp (snd s)) sums.
 
+(* ---- the public entry point: DailyModel.predict / BillingModel.predict(aggregation=None) ----
+   predict() accepts two data classes for its reporting_data argument (DailyReportingData / DailyBaselineData, billing:
+   BillingReportingData / BillingBaselineData), checks the type, takes the frame (.df) and hands it to _predict.
+   The data class is carried by the model's entry point and by every generated case, and is NOT an input of the row
+   pipeline: Properties/C07.v proves that the output depends on the frame only, and the correspondence runs both
+   classes through the public predict() against this one definition. *)
+Inductive data_class := ReportingData | BaselineData.
+Definition data_class_of (n : Z) : data_class := if Z.eqb n 0 then ReportingData else BaselineData.
+Definition predict_public {A : Type} (f : Z -> A -> A) (pol : mask_policy) (dc : data_class) (has_obs : bool)
+           (rows : list (row A)) : list (orow A) :=
+  predict_rows f pol has_obs rows.
+
+(* a case with its data class: (0 reporting | 1 baseline, case) *)
+Definition check_predict_dc (c : Z * case) : bool :=
+  let '(dc, cc) := c in
+  let '(pol, has_obs, ps, rows, _) := cc in
+  list_eqb (fun a b => pat_eqb a b) (pattern_of (predict_public (curve_of ps) (policy_of pol) (data_class_of dc) has_obs rows))
+           (pattern_of (model_out cc))
+  && check_predict cc.
+
 (* diagnostics for a disagreement *)
 Definition show_predict (c : case) :=
   let out := model_out c in
   (pattern_of out, nansum_ext (map (@o_obs Q) out), nansum_ext (map (@o_pred Q) out)).
+
+Definition show_predict_dc (c : Z * case) := show_predict (snd c).
 
 (* monomorphic constructors for the generated cases files *)
 Definition qV (q : Q) : qcell := V q.
